@@ -15,6 +15,69 @@ from . import astu
 _NESTED = None
 
 
+def _ref_children(rel, parent_qual):
+  """[[name, number of parameters], ...] of the functions nested directly in `parent_qual` on the reference tree."""
+  _nested_info(rel, '')   # loads the table
+  global _CHILDREN
+  if _CHILDREN is None:
+    try:
+      import json
+      with open(os.path.join(os.path.dirname(os.path.abspath(__file__)), 'reference.json')) as fh:
+        _CHILDREN = json.load(fh).get('__children__', {})
+    except (OSError, ValueError):
+      _CHILDREN = {}
+  return _CHILDREN.get('%s|%s' % (rel, parent_qual))
+
+
+_CHILDREN = None
+
+
+def _direct_nested(fn):
+  out = []
+  stack = list(fn.body)
+  while stack:
+    st = stack.pop()
+    if isinstance(st, astu.FUNC_TYPES):
+      out.append(st)
+      continue
+    if isinstance(st, ast.ClassDef):
+      continue
+    for fld in ('body', 'orelse', 'finalbody'):
+      stack.extend(x for x in (getattr(st, fld, None) or []) if isinstance(x, ast.stmt))
+    for h in getattr(st, 'handlers', []) or []:
+      stack.extend(h.body)
+  return sorted(out, key=lambda f: (f.lineno, f.col_offset))
+
+
+def _normalise_nested_names(tree, rel):
+  """Alpha-normalisation of *nested function names*: when a function has as many directly nested functions, with the same
+  arities and in the same order, as on the reference tree but under other names, they are given the reference names again
+  (definition and every reference inside the enclosing function).  Nested functions are private to their parent, so this is
+  behaviour preserving; rules can then go on addressing `vjp.inner.wrapper` after it was renamed `pure_fn`."""
+  def visit(node, qual):
+    for ch in (node.body if hasattr(node, 'body') else []):
+      if isinstance(ch, ast.ClassDef):
+        visit(ch, (qual + '.' if qual else '') + ch.name)
+      elif isinstance(ch, astu.FUNC_TYPES):
+        fix(ch, (qual + '.' if qual else '') + ch.name)
+
+  def fix(fn, qual):
+    kids = _direct_nested(fn)
+    ref = _ref_children(rel, qual)
+    if ref and len(ref) == len(kids) and all(len(astu.params(k)) == r[1] for k, r in zip(kids, ref)) and [k.name for k in kids] != [r[0] for r in ref]:
+      mapping = {k.name: r[0] for k, r in zip(kids, ref) if k.name != r[0]}
+      used = {n.id for n in ast.walk(fn) if isinstance(n, ast.Name)} | set(astu.params(fn))
+      if len(set(mapping)) == len(mapping) and not any(v in used and v not in mapping for v in mapping.values()):
+        for n in ast.walk(fn):
+          if isinstance(n, ast.Name) and n.id in mapping:
+            n.id = mapping[n.id]
+        for k in kids:
+          k.name = mapping.get(k.name, k.name)
+    for k in kids:
+      fix(k, qual + '.' + k.name)
+  visit(tree, '')
+
+
 def _nested_info(rel, qual):
   """(index among the nested functions of its parent, number of parameters, number of siblings) on the reference tree."""
   global _NESTED
@@ -53,6 +116,34 @@ class Func:
 
   def __repr__(self):
     return '<Func %s>' % self.fq
+
+
+_POS = {ast.IsNot: ast.Is, ast.NotEq: ast.Eq, ast.NotIn: ast.In}
+
+
+def _positive(test):
+  """(positive form of the test, flipped?) for `not X` and single negative comparisons."""
+  if isinstance(test, ast.UnaryOp) and isinstance(test.op, ast.Not):
+    return test.operand, True
+  if isinstance(test, ast.Compare) and len(test.ops) == 1 and type(test.ops[0]) in _POS:
+    new = ast.Compare(left=test.left, ops=[_POS[type(test.ops[0])]()], comparators=test.comparators)
+    ast.copy_location(new, test)
+    return new, True
+  return test, False
+
+
+def _normalise_polarity(tree):
+  """`if not X: A else: B` -> `if X: B else: A` (also for `is not` / `!=` / `not in` and conditional expressions):
+  two-armed conditionals are kept with a positive test, so rules see one polarity only."""
+  for n in ast.walk(tree):
+    if isinstance(n, ast.If) and n.orelse:
+      t, flipped = _positive(n.test)
+      if flipped:
+        n.test, n.body, n.orelse = t, n.orelse, n.body
+    elif isinstance(n, ast.IfExp):
+      t, flipped = _positive(n.test)
+      if flipped:
+        n.test, n.body, n.orelse = t, n.orelse, n.body
 
 
 def _normalise(tree):
@@ -142,6 +233,8 @@ class Mod:
       self._tree = ast.parse(self.src, filename=path)
     except SyntaxError as e:
       raise AnalysisError('unparsable file %s: %s' % (rel, e))
+    _normalise_nested_names(self._tree, rel)
+    _normalise_polarity(self._tree)
     _normalise(self._tree)
     self._import_nodes = astu.set_parents(self._tree)
     self.dotted = rel[:-3].replace('/', '.')
